@@ -15,6 +15,7 @@ Lemma requested_one : forall k k' v,
   requested k [(k', v)] =
   if (k' <? 0) || (k' =? K_EXPLICIT_TN) then None
   else if k' =? K_TYPE_NAME then (if k =? K_EXPLICIT_TN then Some (VBool true) else None)
+  else if (k' =? K_PROTOCOL) || (k' =? K_P) then (if k =? K_PROT then Some v else None)
   else if k' =? K_EXC_TABLE then (if (k =? K_EXC_TABLE) || (k =? K_EXC_DB) then Some v else None)
   else if (k' =? K_MAX_OCCURS) && is_unbounded v then (if k =? K_MAX_OCCURS then Some VInf else None)
   else if k =? k' then Some v else None.
@@ -25,6 +26,7 @@ Proof.
   intros. rewrite requested_one.
   destruct ((k' <? 0) || (k' =? K_EXPLICIT_TN)); [reflexivity |].
   destruct (k' =? K_TYPE_NAME); [reflexivity |].
+  destruct ((k' =? K_PROTOCOL) || (k' =? K_P)); [reflexivity |].
   destruct (k' =? K_EXC_TABLE); [reflexivity |].
   destruct ((k' =? K_MAX_OCCURS) && is_unbounded v); [reflexivity |].
   destruct (M =? k') eqn:E; [apply Z.eqb_eq in E; congruence | reflexivity].
@@ -148,3 +150,86 @@ Proof.
       * intros. apply requested_del_other. exact H.
       * apply requested_M_absent. exact NA.
 Qed.
+
+(** the other keywords are passed on as they are *)
+Lemma decimal_pre_shape : forall s c kw kw1,
+  decimal_pre s c kw = ROk kw1 ->
+  kw1 = kw \/ kw1 = zd_del M kw \/ exists m, kw1 = zd_set M m (zd_del M kw).
+Proof.
+  unfold decimal_pre. intros s c kw kw1 H. fold M in *.
+  destruct (match kwget kw K_TOTAL_DIGITS, kwget kw K_FRACTION_DIGITS with
+            | Some t, Some f => raise_if (num_leb t (VInt 0)) AssertionError
+                                  (raise_if (num_ltb t f) AssertionError (ROk tt))
+            | _, _ => ROk tt end) as [u | |]; simpl in H; try discriminate.
+  destruct (match kwget kw M with
+            | Some _ => ROk kw
+            | None => match kwget kw K_TOTAL_DIGITS with
+                      | Some t => match num_add2 t with
+                                  | Some m => ROk (zd_set M m (zd_del M kw))
+                                  | None => RBad 21
+                                  end
+                      | None => ROk (zd_del M kw)
+                      end
+            end) as [kwx | |] eqn:E; simpl in H; try discriminate.
+  assert (X : kw1 = kwx).
+  { destruct (match resolve s c K_MIN_BOUND with
+              | Some VNone | None => ROk tt
+              | Some minb => chk (kwget kw K_LE) (fun x => num_ltb x minb) ValueError
+                               (chk (kwget kw K_LT) (fun x => num_leb x minb) ValueError (ROk tt))
+              end) as [u1 | |]; simpl in H; try discriminate.
+    destruct (match resolve s c K_MAX_BOUND with
+              | Some VNone | None => ROk tt
+              | Some maxb => chk (kwget kw K_GE) (fun x => num_ltb maxb x) ValueError
+                               (chk (kwget kw K_GT) (fun x => num_leb maxb x) ValueError (ROk tt))
+              end) as [u2 | |]; simpl in H; try discriminate.
+    inversion H. reflexivity. }
+  subst kwx. destruct (kwget kw M).
+  - inversion E. auto.
+  - destruct (kwget kw K_TOTAL_DIGITS) as [t |].
+    + destruct (num_add2 t) as [m |]; [| discriminate]. inversion E. right. right. eauto.
+    + inversion E. auto.
+Qed.
+
+Lemma zassoc_zd_del_other : forall k (l : kwargs), k <> M -> zassoc k (zd_del M l) = zassoc k l.
+Proof.
+  induction l as [| [k' v] l IH]; intros NE; [reflexivity |].
+  change (zd_del M ((k', v) :: l)) with (if M =? k' then l else (k', v) :: zd_del M l).
+  change (zassoc k ((k', v) :: l)) with (if k =? k' then Some v else zassoc k l).
+  destruct (M =? k') eqn:E.
+  - apply Z.eqb_eq in E. subst k'. destruct (k =? M) eqn:E2; [apply Z.eqb_eq in E2; congruence | reflexivity].
+  - change (zassoc k ((k', v) :: zd_del M l)) with (if k =? k' then Some v else zassoc k (zd_del M l)).
+    rewrite IH by exact NE. reflexivity.
+Qed.
+
+Lemma zassoc_zd_set_other : forall k v (l : kwargs), k <> M -> zassoc k (zd_set M v l) = zassoc k l.
+Proof.
+  induction l as [| [k' v'] l IH]; intros NE.
+  - change (zassoc k (zd_set M v [])) with (if k =? M then Some v else None).
+    destruct (k =? M) eqn:E; [apply Z.eqb_eq in E; congruence | reflexivity].
+  - change (zd_set M v ((k', v') :: l)) with (if M =? k' then (k', v) :: l else (k', v') :: zd_set M v l).
+    change (zassoc k ((k', v') :: l)) with (if k =? k' then Some v' else zassoc k l).
+    destruct (M =? k') eqn:E.
+    + apply Z.eqb_eq in E. subst k'.
+      change (zassoc k ((M, v) :: l)) with (if k =? M then Some v else zassoc k l).
+      destruct (k =? M) eqn:E2; [apply Z.eqb_eq in E2; congruence | reflexivity].
+    + change (zassoc k ((k', v') :: zd_set M v l)) with (if k =? k' then Some v' else zassoc k (zd_set M v l)).
+      rewrite IH by exact NE. reflexivity.
+Qed.
+
+Lemma decimal_pre_zassoc : forall s c kw kw1 k,
+  decimal_pre s c kw = ROk kw1 -> k <> K_MAX_STR_LEN -> zassoc k kw1 = zassoc k kw.
+Proof.
+  intros s c kw kw1 k H NE. destruct (decimal_pre_shape _ _ _ _ H) as [X | [X | [m X]]]; subst kw1.
+  - reflexivity.
+  - apply zassoc_zd_del_other. exact NE.
+  - rewrite zassoc_zd_set_other by exact NE. apply zassoc_zd_del_other. exact NE.
+Qed.
+
+Lemma decimal_pre_prot : forall s c kw kw1, decimal_pre s c kw = ROk kw1 -> prot_of kw1 = prot_of kw.
+Proof.
+  intros. unfold prot_of, kwget.
+  rewrite !(decimal_pre_zassoc _ _ _ _ _ H) by discriminate. reflexivity.
+Qed.
+
+Lemma eff_kw_no_prot : forall s kw, prot_of kw = None -> eff_kw s kw = kw.
+Proof. unfold eff_kw. intros. rewrite H. reflexivity. Qed.
